@@ -1,7 +1,7 @@
 #!/bin/bash
 # runs every claimed check of the given tier sequentially; prints one line per check
 cd "$(dirname "$0")/.."
-TIER=${1:-quick}
+TIER=${1:-quick}; mkdir -p out
 for pid in $(python3 -c "import json;print(' '.join(c['property_id'] for c in json.load(open('MANIFEST.json'))['checks']))"); do
   s=$(date +%s)
   timeout ${2:-1500} ./check $pid $TIER > out/last_$pid.log 2>&1; rc=$?
